@@ -307,7 +307,13 @@ pub fn parse_line(line: &str) -> LineInfo {
                 } else {
                     result.push((sep.to_string(), token));
                 }
-                result.push((String::from(""), "|".to_string()));
+                // `a||b` written without blanks: one `||`, not two pipes
+                if i + 1 < count_chars && line.chars().nth(i + 1) == Some('|') {
+                    result.push((String::from(""), "||".to_string()));
+                    skip_next = true;
+                } else {
+                    result.push((String::from(""), "|".to_string()));
+                }
                 sep = String::new();
                 sep_second = String::new();
                 token = String::new();
@@ -321,7 +327,13 @@ pub fn parse_line(line: &str) -> LineInfo {
                 } else {
                     result.push((String::from(""), token));
                 }
-                result.push((String::from(""), "|".to_string()));
+                // `a||b` written without blanks: one `||`, not two pipes
+                if i + 1 < count_chars && line.chars().nth(i + 1) == Some('|') {
+                    result.push((String::from(""), "||".to_string()));
+                    skip_next = true;
+                } else {
+                    result.push((String::from(""), "|".to_string()));
+                }
                 sep = String::new();
                 sep_second = String::new();
                 token = String::new();
